@@ -249,4 +249,340 @@ theorem encode_cancel (c d : Nat) (hc : isScalar c = true) (hd : isScalar d = tr
   rw [e, e'] at h <;>
   simp only [List.cons_append, List.nil_append, List.cons.injEq] at h <;>
   refine ⟨?_, ?_⟩ <;> first | (u8arith) | (simp only [h])
+
+theorem isWhiteSpace_iff (c : Nat) : isWhiteSpace c = true ↔
+    ((9 ≤ c ∧ c ≤ 13) ∨ c = 0x20 ∨ c = 0x85 ∨ c = 0xA0 ∨ c = 0x1680 ∨
+     (0x2000 ≤ c ∧ c ≤ 0x200A) ∨ c = 0x2028 ∨ c = 0x2029 ∨ c = 0x202F ∨ c = 0x205F ∨ c = 0x3000) := by
+  unfold isWhiteSpace
+  simp only [Bool.or_eq_true, Bool.and_eq_true, decide_eq_true_eq, beq_iff_eq, or_assoc]
+
+theorem isScalar_iff (c : Nat) : isScalar c = true ↔ (c < 0xD800 ∨ (0xE000 ≤ c ∧ c < 0x110000)) := by
+  unfold isScalar
+  simp only [Bool.or_eq_true, Bool.and_eq_true, decide_eq_true_eq]
+
+theorem stripWs_sound {bs r : Bytes} (h : stripWs bs = some r) :
+    ∃ c, isScalar c = true ∧ isWhiteSpace c = true ∧ bs = encode c ++ r := by
+  unfold stripWs at h
+  split at h
+  · cases h; exact ⟨0x85, by decide, by decide, by rw [show encode 0x85 = [0xC2, 0x85] by decide]; rfl⟩
+  · cases h; exact ⟨0xA0, by decide, by decide, by rw [show encode 0xA0 = [0xC2, 0xA0] by decide]; rfl⟩
+  · cases h; exact ⟨0x1680, by decide, by decide, by rw [show encode 0x1680 = [0xE1, 0x9A, 0x80] by decide]; rfl⟩
+  · rename_i b r'
+    split at h
+    · rename_i hb
+      cases h
+      obtain ⟨c, hs, e⟩ := dec3 0xE2 0x80 b (by decide) (by decide) (by u8arith)
+      refine ⟨c, hs, ?_, by rw [e]; rfl⟩
+      rcases encode_shape c hs with ⟨h1, b0, e', t0⟩ | ⟨h1, h2, b0, b1, e', t0, t1⟩ |
+        ⟨h1, h2, h3, b0, b1, b2, e', t0, t1, t2⟩ | ⟨h1, h2, b0, b1, b2, b3, e', t0, t1, t2, t3⟩ <;>
+      rw [e] at e' <;> simp only [List.cons.injEq, and_true, reduceCtorEq, and_false] at e'
+      obtain ⟨rfl, rfl, rfl⟩ := e'
+      rw [isWhiteSpace_iff]
+      u8arith
+    · cases h
+  · cases h; exact ⟨0x205F, by decide, by decide, by rw [show encode 0x205F = [0xE2, 0x81, 0x9F] by decide]; rfl⟩
+  · cases h; exact ⟨0x3000, by decide, by decide, by rw [show encode 0x3000 = [0xE3, 0x80, 0x80] by decide]; rfl⟩
+  · split at h
+    · rename_i hb
+      cases h
+      have hlt := asciiWs_lt hb
+      obtain ⟨hs, e⟩ := dec1 _ hlt
+      refine ⟨_, hs, ?_, by rw [e]; rfl⟩
+      rw [isWhiteSpace_iff]
+      u8arith
+    · cases h
+  · cases h
+
+theorem stripWs_ascii (b : UInt8) (hb : b < 0x80) (r : Bytes) :
+    stripWs (b :: r) = if (9 ≤ b && b ≤ 13) || b == 32 then some r else none := by
+  unfold stripWs
+  split
+  · rename_i heq; cases heq; exact absurd hb (by decide)
+  · rename_i heq; cases heq; exact absurd hb (by decide)
+  · rename_i heq; cases heq; exact absurd hb (by decide)
+  · rename_i heq; cases heq; exact absurd hb (by decide)
+  · rename_i heq; cases heq; exact absurd hb (by decide)
+  · rename_i heq; cases heq; exact absurd hb (by decide)
+  · rename_i heq
+    cases heq
+    rfl
+  · rename_i heq; cases heq
+
+theorem stripWs_ws (c : Nat) (h : isWhiteSpace c = true) (rest : Bytes) :
+    stripWs (encode c ++ rest) = some rest := by
+  rw [isWhiteSpace_iff] at h
+  have hs : isScalar c = true := by rw [isScalar_iff]; omega
+  by_cases hc : c < 0x80
+  · obtain ⟨_, b0, e, t0⟩ : (c < 0x80 ∧ ∃ b0 : UInt8, encode c = [b0] ∧ b0.toNat = c) := by
+      rcases encode_shape c hs with h | h | h | h
+      · exact h
+      all_goals omega
+    rw [e, List.cons_append, List.nil_append, stripWs_ascii b0 (by u8arith)]
+    rw [if_pos (by u8arith)]
+  · by_cases h2 : 0x2000 ≤ c ∧ c ≤ 0x200A
+    · obtain ⟨b2, e, t2⟩ : ∃ b2 : UInt8, encode c = [0xE2, 0x80, b2] ∧ b2.toNat = 0x80 + c % 64 := by
+        rcases encode_shape c hs with ⟨h1, b0, e', t0⟩ | ⟨h1, h2, b0, b1, e', t0, t1⟩ |
+          ⟨h1, h2, h3, b0, b1, b2, e', t0, t1, t2⟩ | ⟨h1, h2, b0, b1, b2, b3, e', t0, t1, t2, t3⟩
+        · omega
+        · omega
+        · have : b0 = 0xE2 := by u8arith
+          have : b1 = 0x80 := by u8arith
+          subst_vars
+          exact ⟨b2, e', t2⟩
+        · omega
+      rw [e]
+      simp only [List.cons_append, List.nil_append, stripWs]
+      rw [if_pos (by u8arith)]
+    · have : c = 0x85 ∨ c = 0xA0 ∨ c = 0x1680 ∨ c = 0x2028 ∨ c = 0x2029 ∨ c = 0x202F ∨ c = 0x205F ∨ c = 0x3000 := by omega
+      rcases this with rfl | rfl | rfl | rfl | rfl | rfl | rfl | rfl
+      · rw [show encode 0x85 = [0xC2, 0x85] by decide]; rfl
+      · rw [show encode 0xA0 = [0xC2, 0xA0] by decide]; rfl
+      · rw [show encode 0x1680 = [0xE1, 0x9A, 0x80] by decide]; rfl
+      · rw [show encode 0x2028 = [0xE2, 0x80, 0xA8] by decide]; rfl
+      · rw [show encode 0x2029 = [0xE2, 0x80, 0xA9] by decide]; rfl
+      · rw [show encode 0x202F = [0xE2, 0x80, 0xAF] by decide]; rfl
+      · rw [show encode 0x205F = [0xE2, 0x81, 0x9F] by decide]; rfl
+      · rw [show encode 0x3000 = [0xE3, 0x80, 0x80] by decide]; rfl
+
+theorem stripWs_encode_aux (c : Nat) (h : isScalar c = true) (rest : Bytes) :
+    stripWs (encode c ++ rest) = if isWhiteSpace c then some rest else none := by
+  by_cases hw : isWhiteSpace c = true
+  · rw [if_pos hw, stripWs_ws c hw]
+  · rw [if_neg hw]
+    cases hx : stripWs (encode c ++ rest) with
+    | none => rfl
+    | some r =>
+      obtain ⟨c', hs', hw', e⟩ := stripWs_sound hx
+      obtain ⟨rfl, _⟩ := encode_cancel c c' h hs' _ _ e
+      exact absurd hw' hw
+
+theorem encode_cancel_rev (c d : Nat) (hc : isScalar c = true) (hd : isScalar d = true) (r r' : Bytes)
+    (h : (encode c).reverse ++ r = (encode d).reverse ++ r') : c = d ∧ r = r' := by
+  rcases encode_shape c hc with ⟨h1, b0, e, t0⟩ | ⟨h1, h2, b0, b1, e, t0, t1⟩ |
+    ⟨h1, h2, h3, b0, b1, b2, e, t0, t1, t2⟩ | ⟨h1, h2, b0, b1, b2, b3, e, t0, t1, t2, t3⟩ <;>
+  rcases encode_shape d hd with ⟨k1, a0, e', s0⟩ | ⟨k1, k2, a0, a1, e', s0, s1⟩ |
+    ⟨k1, k2, k3, a0, a1, a2, e', s0, s1, s2⟩ | ⟨k1, k2, a0, a1, a2, a3, e', s0, s1, s2, s3⟩ <;>
+  rw [e, e'] at h <;>
+  simp only [List.reverse_cons, List.reverse_nil, List.cons_append, List.nil_append, List.cons.injEq] at h <;>
+  refine ⟨?_, ?_⟩ <;> first | (u8arith) | (simp only [h])
+
+theorem stripWsRev_sound {x r : Bytes} (h : stripWsRev x = some r) :
+    ∃ c, isScalar c = true ∧ isWhiteSpace c = true ∧ x = (encode c).reverse ++ r := by
+  unfold stripWsRev at h
+  split at h
+  · cases h; exact ⟨0x85, by decide, by decide, by rw [show encode 0x85 = [0xC2, 0x85] by decide]; rfl⟩
+  · cases h; exact ⟨0xA0, by decide, by decide, by rw [show encode 0xA0 = [0xC2, 0xA0] by decide]; rfl⟩
+  · cases h; exact ⟨0x1680, by decide, by decide, by rw [show encode 0x1680 = [0xE1, 0x9A, 0x80] by decide]; rfl⟩
+  · cases h; exact ⟨0x205F, by decide, by decide, by rw [show encode 0x205F = [0xE2, 0x81, 0x9F] by decide]; rfl⟩
+  · cases h; exact ⟨0x3000, by decide, by decide, by rw [show encode 0x3000 = [0xE3, 0x80, 0x80] by decide]; rfl⟩
+  · rename_i b r'
+    split at h
+    · rename_i hb
+      cases h
+      obtain ⟨c, hs, e⟩ := dec3 0xE2 0x80 b (by decide) (by decide) (by u8arith)
+      refine ⟨c, hs, ?_, by rw [e]; rfl⟩
+      rcases encode_shape c hs with ⟨h1, b0, e', t0⟩ | ⟨h1, h2, b0, b1, e', t0, t1⟩ |
+        ⟨h1, h2, h3, b0, b1, b2, e', t0, t1, t2⟩ | ⟨h1, h2, b0, b1, b2, b3, e', t0, t1, t2, t3⟩ <;>
+      rw [e] at e' <;> simp only [List.cons.injEq, and_true, reduceCtorEq, and_false] at e'
+      obtain ⟨rfl, rfl, rfl⟩ := e'
+      rw [isWhiteSpace_iff]
+      u8arith
+    · split at h
+      · rename_i hb
+        cases h
+        have hlt := asciiWs_lt hb
+        obtain ⟨hs, e⟩ := dec1 _ hlt
+        refine ⟨_, hs, ?_, by rw [e]; rfl⟩
+        rw [isWhiteSpace_iff]
+        u8arith
+      · cases h
+  · split at h
+    · rename_i hb
+      cases h
+      have hlt := asciiWs_lt hb
+      obtain ⟨hs, e⟩ := dec1 _ hlt
+      refine ⟨_, hs, ?_, by rw [e]; rfl⟩
+      rw [isWhiteSpace_iff]
+      u8arith
+    · cases h
+  · cases h
+
+theorem stripWsRev_ascii (b : UInt8) (hb : b < 0x80) (r : Bytes) :
+    stripWsRev (b :: r) = if (9 ≤ b && b ≤ 13) || b == 32 then some r else none := by
+  unfold stripWsRev
+  split
+  · rename_i heq; cases heq; exact absurd hb (by decide)
+  · rename_i heq; cases heq; exact absurd hb (by decide)
+  · rename_i heq; cases heq; exact absurd hb (by decide)
+  · rename_i heq; cases heq; exact absurd hb (by decide)
+  · rename_i heq; cases heq; exact absurd hb (by decide)
+  · rename_i heq
+    cases heq
+    rw [if_neg (by u8arith)]
+  · rename_i heq
+    cases heq
+    rfl
+  · rename_i heq; cases heq
+
+theorem stripWsRev_ws (c : Nat) (h : isWhiteSpace c = true) (rest : Bytes) :
+    stripWsRev ((encode c).reverse ++ rest) = some rest := by
+  rw [isWhiteSpace_iff] at h
+  have hs : isScalar c = true := by rw [isScalar_iff]; omega
+  by_cases hc : c < 0x80
+  · obtain ⟨_, b0, e, t0⟩ : (c < 0x80 ∧ ∃ b0 : UInt8, encode c = [b0] ∧ b0.toNat = c) := by
+      rcases encode_shape c hs with h | h | h | h
+      · exact h
+      all_goals omega
+    rw [e, List.reverse_singleton, List.cons_append, List.nil_append, stripWsRev_ascii b0 (by u8arith)]
+    rw [if_pos (by u8arith)]
+  · by_cases h2 : 0x2000 ≤ c ∧ c ≤ 0x200A
+    · obtain ⟨b2, e, t2⟩ : ∃ b2 : UInt8, encode c = [0xE2, 0x80, b2] ∧ b2.toNat = 0x80 + c % 64 := by
+        rcases encode_shape c hs with ⟨h1, b0, e', t0⟩ | ⟨h1, h2, b0, b1, e', t0, t1⟩ |
+          ⟨h1, h2, h3, b0, b1, b2, e', t0, t1, t2⟩ | ⟨h1, h2, b0, b1, b2, b3, e', t0, t1, t2, t3⟩
+        · omega
+        · omega
+        · have : b0 = 0xE2 := by u8arith
+          have : b1 = 0x80 := by u8arith
+          subst_vars
+          exact ⟨b2, e', t2⟩
+        · omega
+      rw [e]
+      simp only [List.reverse_cons, List.reverse_nil, List.cons_append, List.nil_append]
+      unfold stripWsRev
+      split
+      · rename_i heq; cases heq
+      · rename_i heq; cases heq
+      · rename_i heq; cases heq
+      · rename_i heq; cases heq
+      · rename_i heq; cases heq
+      · rename_i heq
+        cases heq
+        rw [if_pos (by u8arith)]
+      · rename_i hn heq
+        cases heq
+        exact (hn _ rfl).elim
+      · rename_i heq; cases heq
+    · have : c = 0x85 ∨ c = 0xA0 ∨ c = 0x1680 ∨ c = 0x2028 ∨ c = 0x2029 ∨ c = 0x202F ∨ c = 0x205F ∨ c = 0x3000 := by omega
+      rcases this with rfl | rfl | rfl | rfl | rfl | rfl | rfl | rfl
+      · rw [show encode 0x85 = [0xC2, 0x85] by decide]; rfl
+      · rw [show encode 0xA0 = [0xC2, 0xA0] by decide]; rfl
+      · rw [show encode 0x1680 = [0xE1, 0x9A, 0x80] by decide]; rfl
+      · rw [show encode 0x2028 = [0xE2, 0x80, 0xA8] by decide]; rfl
+      · rw [show encode 0x2029 = [0xE2, 0x80, 0xA9] by decide]; rfl
+      · rw [show encode 0x202F = [0xE2, 0x80, 0xAF] by decide]; rfl
+      · rw [show encode 0x205F = [0xE2, 0x81, 0x9F] by decide]; rfl
+      · rw [show encode 0x3000 = [0xE3, 0x80, 0x80] by decide]; rfl
+
+theorem stripWsRev_encode_aux (c : Nat) (h : isScalar c = true) (rest : Bytes) :
+    stripWsRev ((encode c).reverse ++ rest) = if isWhiteSpace c then some rest else none := by
+  by_cases hw : isWhiteSpace c = true
+  · rw [if_pos hw, stripWsRev_ws c hw]
+  · rw [if_neg hw]
+    cases hx : stripWsRev ((encode c).reverse ++ rest) with
+    | none => rfl
+    | some r =>
+      obtain ⟨c', hs', hw', e⟩ := stripWsRev_sound hx
+      obtain ⟨rfl, _⟩ := encode_cancel_rev c c' h hs' _ _ e
+      exact absurd hw' hw
+
+theorem encode_length_pos (c : Nat) : 1 ≤ (encode c).length := by
+  unfold encode
+  split
+  · simp
+  · split
+    · simp
+    · split <;> simp
+
+theorem encodeAll_length_ge (cs : List Nat) : cs.length ≤ (encodeAll cs).length := by
+  induction cs with
+  | nil => simp
+  | cons c cs ih =>
+    rw [encodeAll_cons, List.length_append, List.length_cons]
+    have := encode_length_pos c
+    omega
+
+theorem trimStartFuel_encodeAll (n : Nat) (cs : List Nat) (hcs : ∀ c ∈ cs, isScalar c = true)
+    (hn : cs.length ≤ n) :
+    trimStartFuel n (encodeAll cs) = encodeAll (cs.dropWhile isWhiteSpace) := by
+  induction n generalizing cs with
+  | zero =>
+    cases cs with
+    | nil => rfl
+    | cons c cs => simp at hn
+  | succ n ih =>
+    cases cs with
+    | nil => rfl
+    | cons c cs =>
+      rw [trimStartFuel, encodeAll_cons, stripWs_encode_aux c (hcs c (by simp))]
+      by_cases hw : isWhiteSpace c = true
+      · simp only [hw, if_true, List.dropWhile_cons]
+        exact ih cs (fun d hd => hcs d (by simp [hd])) (by simpa using hn)
+      · simp only [hw, if_false, List.dropWhile_cons, Bool.false_eq_true]
+        rw [encodeAll_cons]
+
+/-- the reversed bytes of the encoding of the reversed list -/
+def revEnc (es : List Nat) : Bytes := (encodeAll es.reverse).reverse
+
+theorem revEnc_cons (e : Nat) (es : List Nat) : revEnc (e :: es) = (encode e).reverse ++ revEnc es := by
+  unfold revEnc
+  rw [List.reverse_cons, encodeAll_append, List.reverse_append, encodeAll_cons, encodeAll_nil,
+    List.append_nil]
+
+theorem trimEndRevFuel_revEnc (n : Nat) (es : List Nat) (hes : ∀ c ∈ es, isScalar c = true)
+    (hn : es.length ≤ n) :
+    trimEndRevFuel n (revEnc es) = revEnc (es.dropWhile isWhiteSpace) := by
+  induction n generalizing es with
+  | zero =>
+    cases es with
+    | nil => rfl
+    | cons c cs => simp at hn
+  | succ n ih =>
+    cases es with
+    | nil => rfl
+    | cons c cs =>
+      rw [trimEndRevFuel, revEnc_cons, stripWsRev_encode_aux c (hes c (by simp))]
+      by_cases hw : isWhiteSpace c = true
+      · simp only [hw, if_true, List.dropWhile_cons]
+        exact ih cs (fun d hd => hes d (by simp [hd])) (by simpa using hn)
+      · simp only [hw, if_false, List.dropWhile_cons, Bool.false_eq_true]
+        rw [revEnc_cons]
+
+theorem trim_encodeAll_aux (cs : List Nat) (h : ∀ c ∈ cs, isScalar c = true) :
+    trim (encodeAll cs) = encodeAll (trimChars cs) := by
+  have hds : ∀ c ∈ cs.dropWhile isWhiteSpace, isScalar c = true :=
+    fun c hc => h c ((List.dropWhile_sublist _).subset hc)
+  unfold trim trimStart trimEnd trimChars
+  rw [trimStartFuel_encodeAll _ cs h (encodeAll_length_ge cs)]
+  have e : (encodeAll (cs.dropWhile isWhiteSpace)).reverse = revEnc (cs.dropWhile isWhiteSpace).reverse := by
+    unfold revEnc; rw [List.reverse_reverse]
+  rw [e, trimEndRevFuel_revEnc _ _ (fun c hc => hds c (List.mem_reverse.mp hc))
+    (by rw [List.length_reverse]; exact encodeAll_length_ge _)]
+  unfold revEnc
+  rw [List.reverse_reverse]
+
+theorem encodeAll_injective_aux (cs ds : List Nat) (hc : ∀ c ∈ cs, isScalar c = true)
+    (hd : ∀ d ∈ ds, isScalar d = true) (h : encodeAll cs = encodeAll ds) : cs = ds := by
+  induction cs generalizing ds with
+  | nil =>
+    cases ds with
+    | nil => rfl
+    | cons d ds =>
+      exfalso
+      have := congrArg List.length h
+      rw [encodeAll_nil, encodeAll_cons, List.length_append, List.length_nil] at this
+      have := encode_length_pos d
+      omega
+  | cons c cs ih =>
+    cases ds with
+    | nil =>
+      exfalso
+      have := congrArg List.length h
+      rw [encodeAll_nil, encodeAll_cons, List.length_append, List.length_nil] at this
+      have := encode_length_pos c
+      omega
+    | cons d ds =>
+      rw [encodeAll_cons, encodeAll_cons] at h
+      obtain ⟨rfl, h'⟩ := encode_cancel c d (hc c (by simp)) (hd d (by simp)) _ _ h
+      rw [ih ds (fun x hx => hc x (by simp [hx])) (fun x hx => hd x (by simp [hx])) h']
+
 end PG
